@@ -552,6 +552,8 @@ def _run_send_threads(case):
                         getattr(bs, op[0])(bytes.fromhex(op[1]))
                 except threadsim.SimAbort:
                     raise
+                except StepCapExceeded:
+                    errors.append((tid, op, 'more send() calls than any correct run needs'))
                 except Exception as e:
                     errors.append((tid, op, '%s: %s' % (type(e).__name__, e)))
                 sched.yield_point(('return', tid, i))
@@ -579,6 +581,8 @@ def _run_send_threads(case):
     if out.violation is None:
         try:
             bs.flush()
+        except StepCapExceeded:
+            out.fail('no-progress', 0, 'the final flush made more send() calls than any correct run needs', mode='send-threads')
         except Exception as e:
             out.fail('unexpected-exception', 0, 'final flush raised %r' % (e,), mode='send-threads')
     if out.violation is None:
